@@ -1,0 +1,24 @@
+//go:build verif
+
+// Contracts for the contract-based verification in /verif (comment-only file).
+
+package combinator
+
+//@ import seg "github.com/scionproto/scion/pkg/segment"
+//@ macro sigmaDef(p) = (forall i int :: 0 <= i && i < len(p.ASEntries) ==> seg.sigma(p, i) == uint16(p.ASEntries[i].HopEntry.HopField.MAC[0])<<8|uint16(p.ASEntries[i].HopEntry.HopField.MAC[1]))
+
+//@ # initial SegID of the info field: the accumulator of the first hop traversed (entry `Shortcut` of a segment
+//@ # used in construction direction, the last entry of one used against it); one step further if that hop is a
+//@ # peering hop (the peer hop field chains to the next entry's value)
+//@ func calculateBeta
+//@   props C22
+//@   requires se != nil && se.segment != nil && se.segment.PathSegment != nil && se.edge != nil && sigmaDef(se.segment.PathSegment)
+//@   requires 0 <= se.edge.Shortcut && se.edge.Shortcut < len(se.segment.ASEntries)
+//@   let p = se.segment.PathSegment
+//@   let n = len(se.segment.ASEntries)
+//@   let down = se.segment.Type == proto.PathSegType_down
+//@   let first = ite(down, se.edge.Shortcut, n-1)
+//@   let peerHop = se.edge.Peer != 0 && first == se.edge.Shortcut
+//@   loop 1 invariant 0 <= rangeint_iter && rangeint_iter < index && beta == seg.betaAt(p, p.Info.SegmentID, rangeint_iter)
+//@   modifies nothing
+//@   ensures result == seg.betaAt(p, p.Info.SegmentID, ite(peerHop, first+1, first))
